@@ -45,8 +45,8 @@ ENCODED = [
 ]
 BOUNDS = {
     "quick": "hals/fista: 1-2 unknowns x 1-2 right-hand sides, U square (m = r) signed, sparsity/ridge each None|symbolic >= 0, epsilon 0|symbolic > 0, one sweep / one or two steps; "
-    "cold start r <= 2 (Cramer); active set: 1-2 unknowns, cold and warm start, n_iter_max 3, tol 0|symbolic >= 0; admm: r <= 2, n <= 2",
-    "thorough": "as quick plus 3 unknowns x 2 right-hand sides, tall U (m = r + 1), active set with 3 unknowns",
+    "cold start r <= 2 (Cramer); active set: 1-2 unknowns, cold and warm start, n_iter_max 2 (1 unknown) / 3 (2 unknowns), tol 0|symbolic >= 0; admm: r <= 2, n <= 2; normal-equation data parametrised as (A SPD, B) -- and as (U'U, U'M) from a symbolic U for one unknown",
+    "thorough": "as quick plus 3 unknowns x 2 right-hand sides for hals/fista/admm and a tall symbolic design U (3 x 1); active set stays at <= 2 unknowns (3 unknowns undecided in 25 min)",
 }
 OUTSIDE = [
     "that the iterations converge to their fixed point (limit statement)",
@@ -56,7 +56,7 @@ OUTSIDE = [
     "nonzero_rows=True (changes the returned point on purpose)",
     "fista with non_negative=False",
 ]
-TRUSTED = ["z3", "Cramer model of tl.solve for the cold start / active set", "solve contract A x = b for admm", "SVD stub (S[0] >= 0) for the default FISTA step size"]
+TRUSTED = ["z3", "Cramer model of tl.solve for the hals cold start; for the active set tl.solve on a nonsingular principal sub-system is introduced by its defining equations (unique solution)", "solve contract A x = b for admm", "SVD stub (S[0] >= 0) for the default FISTA step size"]
 ASSUMPTIONS = [
     "real arithmetic",
     "UtU = U'U with non-zero columns (hals, fista) or det(U) != 0 (cold start, active set, admm)",
@@ -93,7 +93,7 @@ def configs(tier):
         add(f"fista/{'iter' if part == 'row' else 'fix'}/gram/r1n2m2/sp_sym/rd_sym/lr_sym", fn="fista", part="iter" if part == "row" else "fix", r=1, n=2, m=2, sp="sym", rd="sym", lr="sym", data="gram")
     if not q:
         for part in ("row", "fix"):
-            add(f"hals/{part}/gram/r2n2m3/sp_sym/rd_sym/eps_sym", fn="hals", part=part, r=2, n=2, m=3, sp="sym", rd="sym", eps="sym", data="gram")
+            add(f"hals/{part}/gram/r1n2m3/sp_sym/rd_sym/eps_sym", fn="hals", part=part, r=1, n=2, m=3, sp="sym", rd="sym", eps="sym", data="gram")  # r = 2 from a symbolic U: undecided (quartic)
     for r, n in [(1, 1), (1, 2), (2, 1), (2, 2)]:
         for sp, rd in (("none", "none"), ("sym", "sym")):
             add(f"hals/cold/r{r}n{n}/sp_{sp}/rd_{rd}", fn="hals_cold", r=r, n=n, m=r, sp=sp, rd=rd)
@@ -105,12 +105,12 @@ def configs(tier):
         add(f"fista/fix/r{r}n{n}/sp_sym/rd_sym/lr_default", fn="fista", part="fix", r=r, n=n, m=r, sp="sym", rd="sym", lr="default")
         add(f"fista/iter2/r{r}n{n}/sp_sym/rd_sym/lr_sym", fn="fista", part="iter2", r=r, n=n, m=r, sp="sym", rd="sym", lr="sym")
     # active set (solve model: "def" = unique solution of the nonsingular sub-system introduced as a definition; "exact" = Cramer)
-    for r in (1, 2) if q else (1, 2, 3):
+    for r in (1, 2):  # 3 unknowns: undecided within 25 min (measured), not included
         for start in ("cold", "warm"):
             for tol in ("0", "sym"):
                 if r >= 2 and start == "warm" and tol == "0":
                     continue  # tol symbolic >= 0 contains tol = 0; the warm exploration is the expensive one
-                niter = {1: 2, 2: 3, 3: 4}[r]
+                niter = {1: 2, 2: 3}[r]
                 add(f"active_set/r{r}/{start}/tol_{tol}/solve_def", fn="active", r=r, m=r, start=start, tol=tol, mode="fork", niter=niter, max_paths=20000, solve="def", cost=50 if start == "warm" else 1)
                 if r == 1:
                     add(f"active_set/r{r}/{start}/tol_{tol}/solve_exact", fn="active", r=r, m=r, start=start, tol=tol, mode="fork", niter=niter, max_paths=20000, solve="exact")
@@ -400,13 +400,12 @@ def h_active(E, cfg):
         del NN.range
     E.prove("shape", np.shape(x) == (r,))
     w = [Utm[i] - sum(UtU[i, j] * x[j] for j in range(r)) for i in range(r)]  # = -gradient
-    # did the loop leave through its own exit test?  (re-evaluated on the returned point: the test only reads x)
     G = ("solve",)
     E.prove("nonneg", [E.ge(x[i], 0) for i in range(r)], groups=G)
-    # finite termination: the loop left through its own exit test, not by running out of iterations
-    E.prove("exit_test_reached_within_n_iter_max", not probe.exhausted, groups=G)
     if probe.exhausted:
-        return  # not converged: neither a violation of KKT nor a proof
+        # not converged within the unrolling: neither a KKT violation nor a proof -- surfaces as an INCONCLUSIVE path-exception line
+        # (on the current tree no path does this: every path leaves through the exit test within n_iter_max)
+        raise RuntimeError(f"active_set_nnls exhausted n_iter_max={niter} on this path: not converged, KKT neither claimed nor refuted")
     E.prove("kkt/stationary_on_support", [E.Implies(E.gt_strict(x[i], 0), E.eq(w[i], 0)) for i in range(r)], groups=G)
     E.prove("kkt/gradient_sign_on_active_set", [E.Implies(E.eq(x[i], 0), E.le(w[i], tol)) for i in range(r)], groups=G)
 
